@@ -4,7 +4,7 @@ CHECK = {
     "harness": "c08_kdtree.cpp",
     "srcs": ["src/pointset/KdTree.cpp"],
     "flavours": ["asan"],
-    "quick": {"shards": 4, "timeout": 900},
+    "quick": {"shards": 8, "timeout": 900},
     "thorough": {"shards": 16, "timeout": 3600},
     "required_categories": [
         "type_Vector2f", "type_Vector2d", "type_Vector3f", "type_Vector3d",
